@@ -71,7 +71,7 @@ Record tinv (s : tstate) (rs : list tent) : Prop := {
 }.
 
 Lemma tinv_init : tinv ts_init [].
-Proof. constructor; cbn; try reflexivity; try constructor. intros; constructor. Qed.
+Proof. constructor; cbn; try reflexivity; try constructor. Qed.
 
 Lemma ext_filter_in rs m e :
   In e (ext_filter rs m) <-> In e rs /\ te_kind e = TExt /\ te_ext e = m.
@@ -265,31 +265,14 @@ Theorem types_register_ok_iff_no_conflict ops :
       (r = TErrExtNum <-> extnum_taken rs m num) /\
       (r = TErrName <-> ~ extnum_taken rs m num /\ name_taken rs n)).
 Proof.
-  cbv zeta. pose proof (tinv_run ops) as I. repeat split.
-  - intros H Hn. destruct (register_message_cases _ _ id n I) as [(C & E)|(C & E & _)]; [rewrite E in H; discriminate | contradiction].
-  - intros H. destruct (register_message_cases _ _ id n I) as [(C & E)|(C & E & _)]; [contradiction | assumption].
-  - intros H. destruct (register_message_cases _ _ id n I) as [(C & E)|(C & E & _)]; [assumption | congruence].
-  - intros H. destruct (register_message_cases _ _ id n I) as [(C & E)|(C & E & _)]; [now rewrite E | contradiction].
-  - intros H Hn. destruct (register_enum_cases _ _ id n I) as [(C & E)|(C & E & _)]; [rewrite E in H; discriminate | contradiction].
-  - intros H. destruct (register_enum_cases _ _ id n I) as [(C & E)|(C & E & _)]; [contradiction | assumption].
-  - intros H. destruct (register_enum_cases _ _ id n I) as [(C & E)|(C & E & _)]; [assumption | congruence].
-  - intros H. destruct (register_enum_cases _ _ id n I) as [(C & E)|(C & E & _)]; [now rewrite E | contradiction].
-  - destruct (register_extension_cases _ _ id n m num I) as [(C & E)|[(C1 & C2 & E)|(C1 & C2 & E & _)]];
-      intros H; rewrite E in H; first [discriminate | assumption].
-  - destruct (register_extension_cases _ _ id n m num I) as [(C & E)|[(C1 & C2 & E)|(C1 & C2 & E & _)]];
-      intros H; rewrite E in H; first [discriminate | assumption].
-  - intros [H1 H2]. destruct (register_extension_cases _ _ id n m num I) as [(C & E)|[(C1 & C2 & E)|(C1 & C2 & E & _)]];
-      first [contradiction | assumption].
-  - destruct (register_extension_cases _ _ id n m num I) as [(C & E)|[(C1 & C2 & E)|(C1 & C2 & E & _)]];
-      intros H; rewrite E in H; first [discriminate | assumption].
-  - intros H. destruct (register_extension_cases _ _ id n m num I) as [(C & E)|[(C1 & C2 & E)|(C1 & C2 & E & _)]];
-      first [now rewrite E | contradiction].
-  - destruct (register_extension_cases _ _ id n m num I) as [(C & E)|[(C1 & C2 & E)|(C1 & C2 & E & _)]];
-      intros H; rewrite E in H; first [discriminate | assumption].
-  - destruct (register_extension_cases _ _ id n m num I) as [(C & E)|[(C1 & C2 & E)|(C1 & C2 & E & _)]];
-      intros H; rewrite E in H; first [discriminate | assumption].
-  - intros [H1 H2]. destruct (register_extension_cases _ _ id n m num I) as [(C & E)|[(C1 & C2 & E)|(C1 & C2 & E & _)]];
-      first [contradiction | now rewrite E].
+  cbv zeta. pose proof (tinv_run ops) as I. split; [|split].
+  - intros id n. destruct (register_message_cases _ _ id n I) as [(C & E)|(C & E & _)];
+      rewrite E; cbn [snd]; repeat split; intros; first [congruence | tauto].
+  - intros id n. destruct (register_enum_cases _ _ id n I) as [(C & E)|(C & E & _)];
+      rewrite E; cbn [snd]; repeat split; intros; first [congruence | tauto].
+  - intros id n m num.
+    destruct (register_extension_cases _ _ id n m num I) as [(C & E)|[(C1 & C2 & E)|(C1 & C2 & E & _)]];
+      rewrite E; cbn [snd]; repeat split; intros; first [congruence | tauto].
 Qed.
 
 Theorem types_failed_register_noop ops op :
@@ -367,7 +350,7 @@ Proof.
   - intros Hx. unfold find_extension_by_number.
     destruct (aget N.eqb (ext_map s m) num) eqn:E; [|reflexivity]. exfalso. apply Hx.
     apply (extnum_taken_iff s rs m num I). congruence.
-  - unfold find_extension_by_number. destruct (aget N.eqb (ext_map s m) num); discriminate.
+  - intros m num. unfold find_extension_by_number. destruct (aget N.eqb (ext_map s m) num); discriminate.
 Qed.
 
 Lemma filter_map_swap {A B} (g : A -> B) (p : B -> bool) (l : list A) :
